@@ -65,8 +65,8 @@ def main():
             rc, out = sh(["go", "test", "-vet=off", "-count=1", "./..."], cwd=wt)
             res["tests_pass"] = rc == 0
             if os.path.exists(demo):
-                rc1, o1 = sh(["sh", demo, wt + "/crd.clean"], cwd=wt, timeout=300)
-                rc2, o2 = sh(["sh", demo, wt + "/crd.mut"], cwd=wt, timeout=300)
+                rc1, o1 = sh(["bash", demo, wt + "/crd.clean"], cwd=wt, timeout=300)
+                rc2, o2 = sh(["bash", demo, wt + "/crd.mut"], cwd=wt, timeout=300)
                 res["demo_clean_rc"], res["demo_mutant_rc"] = rc1, rc2
                 res["demo_confirms"] = rc1 == 0 and rc2 != 0
             else:
